@@ -209,18 +209,84 @@ Fixpoint vcmp (a b : gval A) : option comparison :=
 Definition cmp_Z (c : comparison) : Z := match c with Lt => (-1)%Z | Eq => 0%Z | Gt => 1%Z end.
 Definition T_int := x5b.
 
+(* ---- reading a Micheline literal at an annotated type (from_micheline_value; PUSH and UNPACK) -----*)
+Definition T_nat := x62. Definition T_mutez := x6a. Definition T_string := x68. Definition T_bytes := x69.
+Definition T_bool := x59. Definition T_unit := x6c.
+
+Definition read_prim (a : A) (p : byte) (n : node) : option (gval A) :=
+  if byte_eqb p T_int then match n with NInt z => Some (GInt a p z) | _ => None end
+  else if byte_eqb p T_nat then
+    match n with NInt z => if (z <? 0)%Z then None else Some (GInt a p z) | _ => None end
+  else if byte_eqb p T_mutez then
+    match n with NInt z => if (z <? 0)%Z || (9223372036854775807 <? z)%Z then None else Some (GInt a p z) | _ => None end
+  else if byte_eqb p T_string then match n with NStr s => Some (GStr a s) | _ => None end
+  else if byte_eqb p T_bytes then match n with NByt b => Some (GByt a b) | _ => None end
+  else if byte_eqb p T_bool then
+    match n with
+    | NPrim q [] _ => if byte_eqb q P_True then Some (GBool a true)
+                      else if byte_eqb q P_False then Some (GBool a false) else None
+    | _ => None end
+  else if byte_eqb p T_unit then
+    match n with NPrim q [] _ => if byte_eqb q P_Unit then Some (GUnit a) else None | _ => None end
+  else None.
+
+(* the arguments of a Pair literal / a sequence standing for a pair *)
+Definition pair_args (n : node) : option (list node) :=
+  match n with
+  | NPrim q args _ => if byte_eqb q P_Pair then Some args else None
+  | NSeq args => Some args
+  | _ => None
+  end.
+
+Fixpoint read (t : gty A) (n : node) {struct t} : option (gval A) :=
+  match t with
+  | TyPrim a p => read_prim a p n
+  | TyPair a l r =>
+      match pair_args n with
+      | Some [x; y] =>
+          match read l x, read r y with Some vx, Some vy => Some (GPair a vx vy) | _, _ => None end
+      | Some (x :: ((_ :: _ :: _) as rest)) =>         (* more than two: the tail is the right component *)
+          match read l x, read r (NSeq rest) with Some vx, Some vy => Some (GPair a vx vy) | _, _ => None end
+      | _ => None
+      end
+  | TyOption a u =>
+      match n with
+      | NPrim q [] _ => if byte_eqb q P_None then Some (GNone a u) else None
+      | NPrim q [x] _ => if byte_eqb q P_Some then match read u x with Some v => Some (GSome a v) | None => None end else None
+      | _ => None
+      end
+  | TyOr a l r =>
+      match n with
+      | NPrim q [x] _ =>
+          if byte_eqb q P_Left then match read l x with Some v => Some (GLeft a v r) | None => None end
+          else if byte_eqb q P_Right then match read r x with Some v => Some (GRight a l v) | None => None end
+          else None
+      | _ => None
+      end
+  end.
+
 (* ---- the instruction fragment ---------------------------------------------------------------------*)
 Inductive cinstr : Type :=
-| IPush (v : gval A)        (* PUSH ty literal, the literal read at the annotated type *)
+| IPush (v : gval A)                 (* PUSH with the literal already read *)
+| IPushT (t : gty A) (lit : node)    (* PUSH ty literal *)
+| IUnpack (t : gty A)                (* UNPACK ty, on the result of a PACK *)
 | IGet (n : nat) | IUpdate (n : nat) | IPairN (n : nat) | IUnpairN (n : nat)
 | ICar | ICdr | IPair | IUnpair | ICompare | IPack
-| IDup | ISwap | IDrop.
+| IDup | ISwap | IDrop
+| ISome | INone (t : gty A) | ILeft (t : gty A) | IRight (t : gty A) | IUnit | IEq
+| ISeq (a b : cinstr) | INop
+| IIf (a b : cinstr) | IIfNone (a b : cinstr) | IIfLeft (a b : cinstr)
+| IDip (n : nat) (a : cinstr).
 
 Definition gstack := list (gval A).
 
+(* instructions without code arguments *)
 Definition step (i : cinstr) (s : gstack) : result gstack :=
   match i, s with
   | IPush v, _ => Ok (v :: s)
+  | IPushT t lit, _ => match read t lit with Some v => Ok (v :: s) | None => Reject end
+  | IUnpack t, GPacked _ m :: s' =>
+      Ok (match read t m with Some v => GSome d v | None => GNone d t end :: s')
   | IGet n, GPair a x y :: s' =>
       match access_comb n (GPair a x y) with Some r => Ok (r :: s') | None => Reject end
   | IUpdate n, e :: GPair a x y :: s' =>
@@ -240,24 +306,62 @@ Definition step (i : cinstr) (s : gstack) : result gstack :=
   | IDup, v :: _ => Ok (v :: s)
   | ISwap, a :: b :: s' => Ok (b :: a :: s')
   | IDrop, _ :: s' => Ok s'
+  | ISome, v :: s' => Ok (GSome d v :: s')
+  | INone t, _ => Ok (GNone d t :: s)
+  | ILeft t, v :: s' => Ok (GLeft d v t :: s')
+  | IRight t, v :: s' => Ok (GRight d t v :: s')
+  | IUnit, _ => Ok (GUnit d :: s)
+  | IEq, GInt _ p z :: s' => if byte_eqb p T_int then Ok (GBool d (Z.eqb z 0) :: s') else Reject
   | _, _ => Reject
+  end.
+
+Fixpoint run (i : cinstr) (s : gstack) : result gstack :=
+  match i with
+  | ISeq a b => match run a s with Ok s' => run b s' | Reject => Reject end
+  | INop => Ok s
+  | IIf a b => match s with GBool _ c :: s' => if c then run a s' else run b s' | _ => Reject end
+  | IIfNone a b =>
+      match s with
+      | GNone _ _ :: s' => run a s'
+      | GSome _ v :: s' => run b (v :: s')
+      | _ => Reject
+      end
+  | IIfLeft a b =>
+      match s with
+      | GLeft _ v _ :: s' => run a (v :: s')
+      | GRight _ _ v :: s' => run b (v :: s')
+      | _ => Reject
+      end
+  | IDip n a =>
+      if length s <? n then Reject
+      else match run a (skipn n s) with Ok s' => Ok (firstn n s ++ s') | Reject => Reject end
+  | _ => step i s
   end.
 
 Fixpoint exec (p : list cinstr) (s : gstack) : result gstack :=
   match p with
   | [] => Ok s
-  | i :: r => match step i s with Ok s' => exec r s' | Reject => Reject end
+  | i :: r => match run i s with Ok s' => exec r s' | Reject => Reject end
   end.
 End Ops.
 
 Arguments cinstr A : clear implicits.
 
-Definition imap {A B} (f : A -> B) (i : cinstr A) : cinstr B :=
+Fixpoint imap {A B} (f : A -> B) (i : cinstr A) : cinstr B :=
   match i with
   | IPush v => IPush (gmap f v)
+  | IPushT t lit => IPushT (tmap f t) lit
+  | IUnpack t => IUnpack (tmap f t)
   | IGet n => IGet n | IUpdate n => IUpdate n | IPairN n => IPairN n | IUnpairN n => IUnpairN n
   | ICar => ICar | ICdr => ICdr | IPair => IPair | IUnpair => IUnpair | ICompare => ICompare
   | IPack => IPack | IDup => IDup | ISwap => ISwap | IDrop => IDrop
+  | ISome => ISome | INone t => INone (tmap f t) | ILeft t => ILeft (tmap f t) | IRight t => IRight (tmap f t)
+  | IUnit => IUnit | IEq => IEq
+  | ISeq a b => ISeq (imap f a) (imap f b) | INop => INop
+  | IIf a b => IIf (imap f a) (imap f b)
+  | IIfNone a b => IIfNone (imap f a) (imap f b)
+  | IIfLeft a b => IIfLeft (imap f a) (imap f b)
+  | IDip n a => IDip n (imap f a)
   end.
 
 (* ---- boolean equalities for the correspondence cases ---------------------------------------------*)
@@ -291,6 +395,9 @@ Fixpoint val_eqb (a b : aval) : bool :=
 
 Definition rmap {X Y} (g : X -> Y) (r : result X) : result Y :=
   match r with Ok x => Ok (g x) | Reject => Reject end.
+
+Fixpoint iseq {A} (l : list (cinstr A)) : cinstr A :=
+  match l with [] => INop | i :: r => ISeq i (iseq r) end.
 
 Definition run_prog (p : list (cinstr ann)) : result (list aval) := exec no_ann p [].
 Definition out_eqb (a b : result (list aval)) : bool := result_eqb (list_eqb val_eqb) a b.
